@@ -60,6 +60,7 @@ pub fn dispatch(args: &[String]) -> i32 {
             replay(path)
         }
         Some("worker") => crate::fparse::worker_main(),
+        Some("sched-scenario") => crate::sched::scenario_main(args[1].parse().unwrap_or(0), &args[2], args[3].parse().unwrap_or(40.0)),
         Some("genfix") => crate::fixtures::generate(),
         Some("checkfix") => {
             let (n, fails) = crate::fixtures::check();
@@ -169,6 +170,48 @@ pub fn replay(path: &str) -> i32 {
                 }
             }
         }
-        _ => machinery("unknown replay engine"),
+        Some("parsex") => {
+            let input = v["input"].as_str().or_else(|| v["message"].as_str()).unwrap_or("").to_string();
+            std::panic::set_hook(Box::new(|_| {}));
+            let r = std::panic::catch_unwind(|| cosmian_cover_crypt::AccessPolicy::parse(&input).map(|p| p.to_dnf()));
+            match r {
+                Err(_) => {
+                    println!("REPRODUCED C15.a: AccessPolicy::parse panics on {input:?}");
+                    1
+                }
+                Ok(r) => {
+                    println!("parse({input:?}) = {:?}; formula-level clauses are replayed by re-running the check", r.map(|d| d.len()));
+                    run_check(v["property"].as_str().unwrap_or("C15"), "quick")
+                }
+            }
+        }
+        Some("polmat") => {
+            let want = v["structure"].as_str().unwrap_or("");
+            let clause = v["clause"].as_str().unwrap_or("");
+            for thorough in [false, true] {
+                if let Some(spec) = crate::polmat::enumerate_structures(thorough).into_iter().find(|s| s.describe() == want) {
+                    let st = crate::polmat::run_structure(&spec, thorough);
+                    for (c, m) in &st.failures {
+                        println!("[{c}] {m}");
+                    }
+                    return if st.failures.iter().any(|(c, _)| c == clause) {
+                        println!("REPRODUCED {clause}");
+                        1
+                    } else {
+                        println!("not reproduced");
+                        0
+                    };
+                }
+            }
+            machinery("structure of the replay file is not in the enumerated family")
+        }
+        Some(other) => {
+            // malle / forge / dem / seqfresh / fixtures: the case lives inside a run (it needs the
+            // keys of that run); these engines are deterministic enumerations, so the replay is
+            // the check itself
+            println!("engine {other}: replaying by re-running the check");
+            run_check(v["property"].as_str().unwrap_or_else(|| machinery("replay file has no property")), "quick")
+        }
+        None => machinery("replay file has no engine"),
     }
 }
